@@ -3267,3 +3267,204 @@ Proof.
   - intros. rewrite !radd_eq. ring.
   - rewrite radd_eq. ring.
 Qed.
+(* ================================================================ abs() on whole landscapes: closure and pointwise value *)
+Lemma find_zero_between : forall p c, fst p < fst c -> snd p * snd c < 0 -> fst p < find_zero p c /\ find_zero p c < fst c.
+Proof.
+  intros p c Hx Hs. set (h := fst c - fst p). assert (Hh : 0 < h) by (unfold h; lra).
+  assert (Hy : ~ snd c - snd p == 0) by (intro E0; assert (snd c == snd p) by lra; nra).
+  pose proof (find_zero_eq p c ltac:(fold h; lra) Hy) as Hz. fold h in Hz. rewrite Hz.
+  assert (0 < - snd p / (snd c - snd p) /\ - snd p / (snd c - snd p) < 1).
+  { destruct (Qlt_le_dec 0 (snd p)) as [Sp|Sp].
+    - assert (snd c < 0) by nra. split.
+      + setoid_replace (- snd p / (snd c - snd p)) with (snd p / (snd p - snd c)) by (field; lra).
+        apply Qlt_shift_div_l; lra.
+      + setoid_replace (- snd p / (snd c - snd p)) with (snd p / (snd p - snd c)) by (field; lra).
+        apply Qlt_shift_div_r; lra.
+    - assert (snd p < 0) by nra. assert (0 < snd c) by nra. split.
+      + apply Qlt_shift_div_l; lra.
+      + apply Qlt_shift_div_r; lra. }
+  setoid_replace (fst p - snd p * h / (snd c - snd p)) with (fst p + h * (- snd p / (snd c - snd p))) by (field; lra).
+  unfold h in *. nra.
+Qed.
+Lemma xsorted_cons2 : forall p q l, xsorted (q :: l) -> fst p < fst q -> xsorted (p :: q :: l).
+Proof.
+  intros p q l Hs Hlt. unfold xsorted in *. simpl in *. constructor; auto. inversion Hs as [|? ? _ Hall]; subst.
+  constructor; auto. eapply Forall_impl; [|exact Hall]. intros a Ha; simpl in Ha. lra.
+Qed.
+Lemma abs_from_sorted : forall tl prev y0, xsorted (prev :: tl) -> xsorted ((fst prev, y0) :: abs_level_from prev tl).
+Proof.
+  induction tl as [|c tl IH]; intros prev y0 Hs; [unfold xsorted; simpl; repeat constructor|].
+  assert (Hs' : xsorted (c :: tl)) by (unfold xsorted in *; simpl in *; inversion Hs; auto).
+  assert (Hx : fst prev < fst c).
+  { unfold xsorted in Hs; simpl in Hs. inversion Hs as [|? ? _ Hall]; subst. inversion Hall; auto. }
+  cbn [abs_level_from]. specialize (IH c (qabs (snd c)) Hs').
+  destruct (Qlt_bool (snd prev * snd c) 0) eqn:E.
+  - apply Qlt_bool_iff' in E. destruct (find_zero_between prev c Hx E) as [Z1 Z2]. simpl app.
+    apply xsorted_cons2; [apply xsorted_cons2; [exact IH | simpl; exact Z2] | simpl; exact Z1].
+  - simpl app. apply xsorted_cons2; [exact IH | simpl; exact Hx].
+Qed.
+Lemma abs_from_app : forall l prev m, abs_level_from prev (l ++ m) = abs_level_from prev l ++ abs_level_from (last l prev) m.
+Proof.
+  induction l as [|c l IH]; intros prev m; [reflexivity|].
+  assert (EL : last (c :: l) prev = last l c) by apply last_cons. rewrite EL.
+  change ((c :: l) ++ m) with (c :: (l ++ m)). cbn [abs_level_from]. rewrite IH, <- app_assoc. reflexivity.
+Qed.
+Lemma abs_from_length : forall tl prev, (length tl <= length (abs_level_from prev tl))%nat.
+Proof.
+  induction tl as [|c tl IH]; intros prev; [simpl; lia|]. cbn [abs_level_from]. rewrite app_length. specialize (IH c).
+  destruct (Qlt_bool (snd prev * snd c) 0); simpl; unfold pt in *; lia.
+Qed.
+Lemma interp_from_headQ : forall X p p' t, fst p == fst p' -> snd p == snd p' -> interp_from p X t == interp_from p' X t.
+Proof.
+  intros [|q X] p p' t Hx Hy; simpl; auto. destruct (Qle_bool t (fst q)); [|reflexivity].
+  unfold line_val. rewrite Hx, Hy. reflexivity.
+Qed.
+Theorem abs_level_pointwiseQ : forall l t, xsorted l -> snd (nthp l 0) == 0 -> fst (nthp l 0) == - INF ->
+  interp (abs_level l) t == qabs (interp l t).
+Proof.
+  intros [|p tl] t Hs Hy Hx; [unfold nthp in Hx; simpl in Hx; exfalso; vm_compute in Hx; discriminate Hx|].
+  unfold nthp in Hy, Hx; simpl in Hy, Hx. cbn [abs_level interp]. simpl fst. simpl snd.
+  assert (Eb : Qle_bool t (fst p) = Qle_bool t (- INF)) by (rewrite Hx; reflexivity). rewrite Eb.
+  destruct (Qle_bool t (- INF)) eqn:E.
+  - rewrite Hy. reflexivity.
+  - apply Qle_bool_false in E.
+    transitivity (interp_from (fst p, qabs (snd p)) (abs_level_from p tl) t).
+    + apply interp_from_headQ; simpl; [symmetry; exact Hx | rewrite Hy; reflexivity].
+    + apply abs_level_from_correct; auto. rewrite Hx. lra.
+Qed.
+
+Lemma zero_prod_no_sign : forall a b, a == 0 \/ b == 0 -> Qlt_bool (a * b) 0 = false.
+Proof.
+  intros a b H. destruct (Qlt_bool (a * b) 0) eqn:E; auto. apply Qlt_bool_iff' in E. destruct H as [H|H]; rewrite H in E; lra.
+Qed.
+Lemma qabs_zero : forall a, a == 0 -> qabs a == 0.
+Proof. intros a H; rewrite H. reflexivity. Qed.
+
+Lemma split_last2 : forall (l : list pt), (2 <= length l)%nat -> exists mid c1 c2, l = mid ++ [c1; c2].
+Proof.
+  intros l H. destruct l as [|x l] using rev_ind; [simpl in H; lia|]. clear IHl.
+  destruct l as [|x0 l] using rev_ind; [simpl in H; lia|]. clear IHl.
+  exists l, x0, x. rewrite <- app_assoc. reflexivity.
+Qed.
+Theorem abs_level3 : forall l, level3 l -> level3 (abs_level l).
+Proof.
+  intros l [Sx [L [F [X [Y0 [Y1 [Y2 Y3]]]]]]].
+  (* l = p :: q :: mid ++ [c1; c2] *)
+  destruct l as [|p l']; [simpl in L; lia|]. destruct l' as [|q l'']; [simpl in L; lia|].
+  assert (Hend : exists mid c1 c2, q :: l'' = mid ++ [c1; c2]) by (apply split_last2; simpl in *; lia).
+  destruct Hend as [mid [c1 [c2 Eend]]].
+  assert (Hlen : length (p :: q :: l'') = (length mid + 3)%nat) by (change (length (p :: q :: l'')) with (S (length (q :: l''))); rewrite Eend, app_length; simpl; lia).
+  assert (Hc2 : nthp (p :: q :: l'') (length (p :: q :: l'') - 1) = c2).
+  { unfold nthp. rewrite Hlen. change (p :: q :: l'') with (p :: (q :: l'')). rewrite Eend.
+    replace (length mid + 3 - 1)%nat with (S (length mid + 1)) by lia. simpl. rewrite app_nth2 by lia.
+    replace (length mid + 1 - length mid)%nat with 1%nat by lia. reflexivity. }
+  assert (Hc1 : nthp (p :: q :: l'') (length (p :: q :: l'') - 2) = c1).
+  { unfold nthp. rewrite Hlen. change (p :: q :: l'') with (p :: (q :: l'')). rewrite Eend.
+    replace (length mid + 3 - 2)%nat with (S (length mid)) by lia. simpl. rewrite app_nth2 by lia.
+    rewrite Nat.sub_diag. reflexivity. }
+  rewrite Hc2 in X, Y3. rewrite Hc1 in Y2. unfold nthp in F, Y0, Y1; simpl in F, Y0, Y1.
+  (* the shape of the result *)
+  assert (Eabs : abs_level (p :: q :: l'') = (- INF, 0) :: (abs_level_from p (mid ++ [c1])) ++ [(fst c2, qabs (snd c2))]).
+  { cbn [abs_level]. rewrite Eend. change (mid ++ [c1; c2]) with (mid ++ [c1] ++ [c2]). rewrite app_assoc, abs_from_app.
+    f_equal. f_equal. rewrite last_last. cbn [abs_level_from]. rewrite (zero_prod_no_sign _ _ (or_introl Y2)). reflexivity. }
+  assert (Emid : exists U, abs_level_from p (mid ++ [c1]) = U ++ [(fst c1, qabs (snd c1))]).
+  { rewrite abs_from_app. cbn [abs_level_from]. rewrite (zero_prod_no_sign _ _ (or_intror Y2)). simpl app.
+    exists (abs_level_from p mid). reflexivity. }
+  destruct Emid as [U EU].
+  assert (Ehead : exists V, abs_level_from p (mid ++ [c1]) = (fst q, qabs (snd q)) :: V).
+  { destruct mid as [|a mid'].
+    - simpl in Eend. inversion Eend; subst. cbn [abs_level_from app]. rewrite (zero_prod_no_sign _ _ (or_introl Y0)). eexists; reflexivity.
+    - simpl in Eend. inversion Eend; subst. simpl app. cbn [abs_level_from]. rewrite (zero_prod_no_sign _ _ (or_introl Y0)). eexists; reflexivity. }
+  destruct Ehead as [V EV].
+  assert (Hsorted : xsorted (abs_level (p :: q :: l''))).
+  { cbn [abs_level]. pose proof (abs_from_sorted (q :: l'') p 0 Sx) as Hs0.
+    unfold xsorted in *. simpl in *. inversion Hs0 as [|? ? Hs1 Hall]; subst. constructor; auto.
+    eapply Forall_impl; [|exact Hall]. intros a Ha. simpl in Ha. lra. }
+  set (R := abs_level (p :: q :: l'')) in *.
+  assert (HlenR : length R = (length U + 3)%nat).
+  { rewrite Eabs, EU. simpl. rewrite !app_length. simpl. lia. }
+  unfold level3. split; [exact Hsorted|]. split; [lia|].
+  assert (R0 : nthp R 0 = (- INF, 0)) by (rewrite Eabs; reflexivity).
+  assert (R1 : nthp R 1 = (fst q, qabs (snd q))) by (rewrite Eabs, EV; reflexivity).
+  assert (Rl : nthp R (length R - 1) = (fst c2, qabs (snd c2))).
+  { unfold nthp. rewrite HlenR, Eabs, EU. replace (length U + 3 - 1)%nat with (S (length U + 1)) by lia. simpl.
+    rewrite <- app_assoc. rewrite app_nth2 by lia. replace (length U + 1 - length U)%nat with 1%nat by lia. reflexivity. }
+  assert (Rl2 : nthp R (length R - 2) = (fst c1, qabs (snd c1))).
+  { unfold nthp. rewrite HlenR, Eabs, EU. replace (length U + 3 - 2)%nat with (S (length U)) by lia. simpl.
+    rewrite <- app_assoc. rewrite app_nth2 by lia. rewrite Nat.sub_diag. reflexivity. }
+  rewrite R0, R1, Rl, Rl2. simpl.
+  repeat split; try reflexivity; auto; apply qabs_zero; auto.
+Qed.
+
+Lemma value_at_abs : forall a k t, Forall level3 a -> - INF < t -> t < INF ->
+  exists v, value_at (land_abs a) k t = Some v /\ v == qabs (lev a k t).
+Proof.
+  induction a as [|l a IH]; intros k t Ha Ht0 Ht1.
+  - exists 0. split; [reflexivity|]. rewrite lev_nil. reflexivity.
+  - inversion Ha as [|? ? Hl Ha']; subst. destruct k as [|k].
+    + unfold land_abs. simpl map. rewrite (value_at_nth _ 0) by (simpl; lia). simpl nth.
+      destruct (abs_level3 l Hl) as [Sx [L [F [X [Y0 [Y1 [Y2 Y3]]]]]]].
+      destruct (value_at_is_interp _ t Sx L Y0 Y1 Y2 Y3 ltac:(lra) ltac:(lra)) as [v [Hv1 Hv2]].
+      exists v. split; auto. rewrite Hv2, lev_cons0. destruct Hl as [Sl [_ [Fl [_ [Yl0 _]]]]].
+      apply abs_level_pointwiseQ; auto.
+    + unfold land_abs. simpl map. rewrite value_at_cons, lev_consS. apply IH; auto.
+Qed.
+
+Section OpLevel3.
+  Variable oper : Q -> Q -> Q.
+  Hypothesis oper_comp : forall a a' b b', a == a' -> b == b' -> oper a b == oper a' b'.
+  Hypothesis oper_lin : forall y1 y2 y1' y2' s,
+    oper (y1 + (y2 - y1) * s) (y1' + (y2' - y1') * s) == oper y1 y1' + (oper y2 y2' - oper y1 y1') * s.
+  Hypothesis oper_00 : oper 0 0 == 0.
+  Lemma op_levels_level3 : forall a b s, Forall level3 a -> Forall level3 b -> op_levels oper a b = Some s -> Forall level3 s.
+  Proof.
+    assert (G1c : forall a a', a == a' -> oper a 0 == oper a' 0) by (intros; apply oper_comp; [auto | reflexivity]).
+    assert (G2c : forall a a', a == a' -> oper 0 a == oper 0 a') by (intros; apply oper_comp; [reflexivity | auto]).
+    induction a as [|l1 a IH]; intros b s Ha Hb H.
+    - cbn [op_levels] in H. inversion H; subst. clear H.
+      apply Forall_forall. intros x Hx. apply in_map_iff in Hx. destruct Hx as [l [El Hl]]. subst x.
+      apply (level3_map1 (fun y => oper 0 y) G2c oper_00). rewrite Forall_forall in Hb. apply Hb; auto.
+    - destruct b as [|l2 b].
+      + cbn [op_levels] in H. inversion H; subst. clear H IH.
+        rewrite Forall_forall in Ha. apply Forall_forall. intros x Hx. simpl in Hx. destruct Hx as [Hx|Hx].
+        * subst x. apply (level3_map1 (fun y => oper y 0) G1c oper_00). apply Ha; left; auto.
+        * apply in_map_iff in Hx. destruct Hx as [l [El Hl]]. subst x.
+          apply (level3_map1 (fun y => oper y 0) G1c oper_00). apply Ha; right; auto.
+      + inversion Ha as [|? ? Hl1 Ha']; subst. inversion Hb as [|? ? Hl2 Hb']; subst.
+        cbn [op_levels] in H. destruct (merge_level oper l1 l2) as [r|] eqn:Er; [|discriminate].
+        destruct (op_levels oper a b) as [s'|] eqn:Es; [|discriminate]. inversion H; subst.
+        constructor; [|apply (IH b); auto].
+        destruct (merge_level_closed oper oper_comp oper_lin oper_00 l1 l2 Hl1 Hl2) as [r' [Hr' [H3 _]]].
+        rewrite Er in Hr'. inversion Hr'; subst. exact H3.
+  Qed.
+End OpLevel3.
+
+(* |lambda_k(A) - lambda_k(B)|: the function whose integral / maximum is the distance *)
+Theorem landscape_abs_difference : forall A B, admissible A -> admissible B ->
+  exists la lb s, construct A 0 = Some la /\ construct B 0 = Some lb /\ land_sub la lb = Some s /\
+    forall k t, - INF < t -> t < INF ->
+      exists v, value_at (land_abs s) k t = Some v /\ v == qabs (lambda A k t - lambda B k t).
+Proof.
+  intros A B HA HB. destruct (construct_total A) as [la Ha]. destruct (construct_total B) as [lb Hb].
+  destruct (construct_levels3 A la HA Ha) as [La Fa]. destruct (construct_levels3 B lb HB Hb) as [Lb Fb].
+  assert (C1 : forall a a' b b', a == a' -> b == b' -> rsub a b == rsub a' b') by (intros a a' b b' H H0; rewrite !rsub_eq, H, H0; reflexivity).
+  assert (C2 : forall y1 y2 y1' y2' s, rsub (y1 + (y2 - y1) * s) (y1' + (y2' - y1') * s) == rsub y1 y1' + (rsub y2 y2' - rsub y1 y1') * s)
+    by (intros; rewrite !rsub_eq; ring).
+  assert (C3 : rsub 0 0 == 0) by (rewrite rsub_eq; ring).
+  destruct (op_levels_pointwise rsub C1 C2 C3 la lb La Lb) as [s [Hs Hval]].
+  pose proof (op_levels_level3 rsub C1 C2 C3 la lb s La Lb Hs) as Ls.
+  exists la, lb, s. repeat split; auto. intros k t Ht0 Ht1.
+  destruct (value_at_abs s k t Ls Ht0 Ht1) as [v [H1 H2]]. exists v. split; auto. rewrite H2.
+  (* lev s k t == lambda A - lambda B: read the level back through value_at *)
+  destruct (Hval k t Ht0 Ht1) as [w [W1 W2]].
+  assert (Hlev : lev s k t == w).
+  { unfold lev. destruct (Nat.ltb k (length s)) eqn:E.
+    - apply Nat.ltb_lt in E. rewrite (value_at_nth s k t E) in W1.
+      assert (H3 : level3 (nth k s [])) by (rewrite Forall_forall in Ls; apply Ls; apply nth_In; auto).
+      destruct H3 as [Sx [L [F [X [Y0 [Y1 [Y2 Y3]]]]]]].
+      destruct (value_at_is_interp _ t Sx L Y0 Y1 Y2 Y3 ltac:(lra) ltac:(lra)) as [w' [W3 W4]].
+      rewrite W1 in W3. inversion W3; subst. symmetry; exact W4.
+    - apply Nat.ltb_ge in E. unfold value_at in W1. assert (E' : Nat.leb (length s) k = true) by (apply Nat.leb_le; auto).
+      rewrite E' in W1. inversion W1; subst. reflexivity. }
+  rewrite Hlev, W2, rsub_eq, Fa, Fb by auto. reflexivity.
+Qed.
